@@ -477,6 +477,44 @@ func runC03(c *Ctx) {
 	// ---- 5/7. swap order and unmap -------------------------------------------------------
 	c03Swap(c, m)
 
+	// ---- 6b. register: every attempt to publish c at the list head first points c.next at that head
+	{
+		reg := m.Func("internal/counter", "file.register")
+		var listCAS *ssa.Call
+		for _, cs := range callsIn(reg) {
+			cn := calleeName(cs.Common())
+			if strings.Contains(cn, "Pointer[internal/counter.Counter]).CompareAndSwap") && strings.HasSuffix(describe(cs.Common().Args[0]), ".counters") {
+				listCAS = cs.(*ssa.Call)
+			}
+		}
+		r.Check("C03.register", "register/publishes with a CAS on the list head", m.Pos(reg.Pos()), listCAS != nil, "")
+		if listCAS != nil {
+			head := strip(listCAS.Call.Args[1])
+			headIn, _ := head.(ssa.Instruction)
+			setsNext := func(in ssa.Instruction) bool {
+				cc := callOf(in)
+				if cc == nil || !strings.HasSuffix(describe(cc.Args[0]), ".next") {
+					return false
+				}
+				cn := calleeName(cc)
+				if strings.Contains(cn, ").Store[") {
+					return dependsOn(cc.Args[1], head, 6)
+				}
+				if strings.Contains(cn, ").CompareAndSwap[") {
+					return len(cc.Args) == 3 && dependsOn(cc.Args[2], head, 6)
+				}
+				return false
+			}
+			ok := headIn != nil
+			if headIn != nil {
+				w := reachesWithout(headIn, func(in ssa.Instruction) bool { return in == ssa.Instruction(listCAS) }, setsNext)
+				ok = w == nil
+			}
+			r.Check("C03.register", "register/c.next points at the head the list CAS expects", m.Pos(listCAS.Pos()), ok,
+				"between loading the list head and CASing c in front of it, c.next must be set from that very head on every path (also on a retry): otherwise the counters behind a stale next are cut off the list and are never invalidated, refreshed or flushed")
+		}
+	}
+
 	// ---- 6. registration list only via atomics: guaranteed by the field types -----------
 	for _, spec := range [][2]string{{"file", "counters"}, {"Counter", "next"}, {"file", "current"}} {
 		tn := m.Pkg("internal/counter").Pkg.Scope().Lookup(spec[0]).Type().Underlying().(*types.Struct)
